@@ -272,13 +272,16 @@ class World:
         """maildir: an outside agent delivers a message file into the folder"""
         import os
         folder = os.path.join(self.env.base, self.user.decode())
-        if nm != 0:
+        if nm != 0 and getattr(self.env, 'layout', '++') == 'fs':
+            folder = os.path.join(folder, *NAMES[nm].decode().split('/'))
+        elif nm != 0:
             folder = os.path.join(folder, '.' + NAMES[nm].decode().replace('/', '.'))
+        colon = getattr(self.env, 'colon', None) or ':'
         name = '9%09d.V%d.verif' % (mark, mark)
         if in_new:
             path = os.path.join(folder, 'new', name)
         else:
-            path = os.path.join(folder, 'cur', name + ':2,' + ('T' if deleted else ''))
+            path = os.path.join(folder, 'cur', name + colon + '2,' + ('T' if deleted else ''))
         with open(path, 'wb') as f:
             f.write(message_bytes(mark))
 
@@ -993,9 +996,43 @@ async def add_dict_user(env, name: str, password: str) -> None:
 
 
 # ------------------------------------------------------- batches of histories
-def _mk_env(maildir: bool):
-    from .pymap_env import DictEnv, MaildirEnv
-    return MaildirEnv(users=(('u1', 'pass'),)) if maildir else DictEnv()
+def _mk_env(maildir: bool, mcfg=('++', None)):
+    """mcfg = (layout, colon) of the maildir backend: '++' or 'fs', the
+    file-name info delimiter (None = ':')"""
+    from .pymap_env import DictEnv, MaildirEnv, FakeArgs
+
+    class MaildirEnvCfg(MaildirEnv):
+        colon = mcfg[1]
+
+        async def start(self):
+            from pysasl.hashing import BuiltinHash
+            from pymap.backend.maildir import Config, Login, Identity
+            from pymap.concurrent import Subsystem
+            from pymap.user import Passwords, UserMetadata
+            args = FakeArgs(base_dir=self.base, layout=self.layout, concurrency=None,
+                            colon=self.colon, users_file=None, passwords_file=None)
+            sub = Subsystem.for_asyncio()
+            parsed = dict(Config.parse_args(args))
+            parsed['subsystem'] = sub
+            self.config = Config(
+                args, host=None, port=0, debug=False, tls_enabled=False,
+                **parsed, cpu_subsystem=sub,
+                hash_context=BuiltinHash(hash_name='sha1', salt_len=0, rounds=1),
+                invalid_user_sleep=0.0)
+            self.config.apply_context()
+            self.login_obj = Login(self.config)
+            for name, password in self.users:
+                hashed = await Passwords(self.config).hash_password(password)
+                ident = Identity(self.config, self.login_obj.tokens, name, None, {'admin'})
+                try:
+                    await ident.get()
+                except Exception:
+                    await ident.set(UserMetadata(self.config, name, password=hashed,
+                                                 params={'mailbox_path': name}))
+            return self
+    if not maildir:
+        return DictEnv()
+    return MaildirEnvCfg(layout=mcfg[0], users=(('u1', 'pass'),))
 
 
 async def _batch_async(spec) -> list[dict]:
@@ -1008,13 +1045,15 @@ async def _batch_async(spec) -> list[dict]:
     async def one(ops_or_gen, label):
         nonlocal nuser
         if maildir:
-            e = await _mk_env(True).start()
+            e = await _mk_env(True, tuple(spec.get('mcfg', ('++', None)))).start()
             user, pw = b'u1', b'pass'
         else:
             e = env
             nuser += 1
             user, pw = b'h%d' % nuser, b'pw'
             await add_dict_user(e, user.decode(), 'pw')
+        if maildir and spec.get('mcfg'):
+            label += '@%s,%s' % tuple(spec['mcfg'])
         rec = {'label': label, 'base': 0 if maildir else 100, 'shared': not maildir,
                'hist': [], 'fails': [], 'crashes': [], 'error': None, 'checks': 0}
         try:
@@ -1185,7 +1224,7 @@ async def stale_inbox_scenario() -> dict | None:
         await w.close_all()
 
 
-async def contended_maildir_scenario(variant: str) -> dict:
+async def contended_maildir_scenario(variant: str, mcfg=('++', None)) -> dict:
     """Two connections add messages to the same maildir mailbox while an
     outside agent holds `dovecot-uidlist.lock` for a moment (the harness
     creates the lock file at the instant the first message file has been
@@ -1195,7 +1234,7 @@ async def contended_maildir_scenario(variant: str) -> dict:
     Returns {'fails': [...], 'transcript': [...]}."""
     import os
     from pymap.backend.maildir.mailbox import Maildir
-    env = await _mk_env(True).start()
+    env = await _mk_env(True, mcfg).start()
     w = World(env, b'u1', b'pass', maildir=True)
     mon = Monitor()
     t = [0]
